@@ -188,6 +188,29 @@ def lru_assembly(ctx, rr):
     rr.ob(ctx.where(ww), 'windup_lru_for_webentity: the node itself first, then the nearest parent with a webentity (%d rows)' % len(rows), ok=not bad)
     for r, msg in bad[:2]:
         rr.fail(ctx.finding('R-LRU-ASSEMBLY', ww, ww.node, 'windup_lru_for_webentity: ' + msg, detail={'row': r.show()[:300]}, stmt='windup webentity'))
+    # an upward walk written in place (parent_node / read_parent instead of node_parents_iter): every ancestor reached is asked for its
+    # webentity before the walk gives up - the top-most one included
+    import re as _re
+    rows2 = tables(ctx, ww, iters=2, keep=lambda nm, c: nm in ('has_webentity', 'webentity', 'node_parents_iter', 'warn', 'has_parent', 'parent_node', 'read_parent'))
+    unexamined = []
+    for r in rows2:
+        if r.outcome != 'return':
+            continue
+        ret = [e for e in r.events if e.kind == 'return']
+        if ret and ret[-1].text not in ('None', ''):
+            continue
+        vers = {}
+        for k in r.val:
+            m_ = _re.match(r'^(\w+#\d+)\.(\w+)\(\)$', k)
+            if m_:
+                vers.setdefault(m_.group(1), set()).add(m_.group(2))
+        for v_, asked in vers.items():
+            if not (asked & {'has_webentity', 'webentity'}):
+                unexamined.append((r, v_))
+    rr.ob(ctx.where(ww), 'windup_lru_for_webentity: no ancestor reached by the walk is left unexamined when the walk gives up (%d rows)' % len(rows2), ok=not unexamined)
+    for r, v_ in unexamined[:1]:
+        rr.fail(ctx.finding('R-LRU-ASSEMBLY', ww, ww.node, 'windup_lru_for_webentity gives up although ancestor `%s` was reached and never asked for its webentity (the top-most ancestor '
+                            'is skipped): pages whose nearest webentity sits on a one-stem prefix resolve to nothing' % v_, detail={'row': r.show()[:400]}, stmt='windup top ancestor'))
     # helpers: lru_iter cuts after each separator; lru_dirname drops the last stem
     h = P.funcs.get(('traph.helpers', 'lru_iter'))
     d = P.funcs.get(('traph.helpers', 'lru_dirname'))
@@ -233,7 +256,9 @@ def lru_assembly(ctx, rr):
     if ys is None:
         B = D = C = None
     else:
-        B, D, C = lin(ys[0].value.slice.upper) if ys[0].value.slice.upper is not None else None, lin(tests[0].left.slice.upper), lin(tests[0].left.slice.lower)
+        from ..dataflow import resolve_locals as _rlh
+        B, D, C = lin(_rlh(P, h, ys[0].value.slice.upper)) if ys[0].value.slice.upper is not None else None, lin(_rlh(P, h, tests[0].left.slice.upper)), \
+            lin(_rlh(P, h, tests[0].left.slice.lower))
     if ys is not None:
         if B is None or D is None or C is None:
             raise AnalysisError('R-LRU-ASSEMBLY: index arithmetic of helpers.lru_iter is not linear')
@@ -246,7 +271,7 @@ def lru_assembly(ctx, rr):
         A = ys[0].value.slice.lower
         if ok and isinstance(A, ast.Name):
             upd = [a for a in P.own(h, ast.Assign) if any(isinstance(t, ast.Name) and t.id == A.id for t in a.targets) and not (isinstance(a.value, ast.Constant))]
-            ok = len(upd) == 1 and lin(upd[0].value) is not None and norm(lin(upd[0].value)) == norm(B)
+            ok = len(upd) == 1 and lin(_rlh(P, h, upd[0].value)) is not None and norm(lin(_rlh(P, h, upd[0].value))) == norm(B)
         rr.ob(ctx.where(h), 'lru_iter yields stems including their closing separator', ok=ok)
         if not ok:
             rr.fail(ctx.finding('R-LRU-ASSEMBLY', h, h.node, 'lru_iter no longer yields each stem with its closing separator', stmt='lru_iter'))
@@ -531,6 +556,15 @@ def paginate(ctx, rr):
         if len(outer) != 1:
             raise AnalysisError('R-PAGINATE: prefix loop of %s not recognised' % qual)
         of = outer[0]
+        # the token's prefix index is a position in the caller's list: the list is walked as given, never re-ordered or de-duplicated
+        plist = [p_ for p_ in u.call_params if 'prefix' in p_]
+        reorder = [c for c in P.own(u, ast.Call)
+                   if ((isinstance(c.func, ast.Name) and c.func.id in ('sorted', 'reversed', 'set', 'frozenset') and any(isinstance(x, ast.Name) and x.id in plist for a_ in c.args for x in ast.walk(a_)))
+                       or (isinstance(c.func, ast.Attribute) and c.func.attr in ('sort', 'reverse') and isinstance(c.func.value, ast.Name) and c.func.value.id in plist))]
+        rr.ob(ctx.where(u), '%s walks the prefix list in the order (and with the positions) the caller gave' % qual, ok=not reorder)
+        for c in reorder[:1]:
+            rr.fail(ctx.finding('R-PAGINATE', u, c, '%s re-orders the prefix list (`%s`): the answer is no longer prefix by prefix in the given order, and the prefix index of a token refers to '
+                                'another list than the one the caller holds' % (qual, ast.unparse(c)[:50]), stmt='%s prefix order' % qual))
         if of.iter.func.id == 'enumerate':
             # enumerate(prefixes[START:]) numbers the prefixes from 0 again: the index stored in the next token is relative to this call
             a0 = of.iter.args[0] if of.iter.args else None
